@@ -84,6 +84,11 @@ pub fn hx(b: &[u8]) -> String {
     }
 }
 
+/// short but collision-free (for practical purposes) rendering of a byte string
+pub fn hxu(b: &[u8]) -> String {
+    format!("{}#{:08x}", hx(b), crate::rng::fnv(b) as u32)
+}
+
 pub fn label_str(l: &NodeLabel) -> String {
     format!("{}/{}", hex::encode(&l.label_val[..((l.label_len as usize + 7) / 8).min(32).max(1)]), l.label_len)
 }
